@@ -80,6 +80,19 @@ func (s *Session) resolveVer(ref, bucket, key string, side int) *string {
 	case ref == "null":
 		v := "null"
 		return &v
+	case ref == "cur":
+		// the current version of the key according to the model
+		v := unknownVersion
+		if mb := s.Model.Buckets[bucket]; mb != nil {
+			if cur := mb.Current(key); cur != nil {
+				if side < 0 {
+					v = cur.ID
+				} else if id := s.ImplID(bucket, key, cur.ID, side); id != "" {
+					v = id
+				}
+			}
+		}
+		return &v
 	case strings.HasPrefix(ref, "ref:"):
 		n, _ := strconv.Atoi(ref[4:])
 		es := s.versions[bk(bucket, key)]
@@ -241,10 +254,34 @@ func (s *Session) Step(op prog.Op) StepResult {
 			}
 			s.uploads = append(s.uploads, e)
 		}
+		if op.Kind == prog.OpDeleteObjects {
+			for i, ee := range sr.Expect.Entries {
+				if !ee.DeleteMarker || ee.Version == "" || ee.Version == "null" {
+					continue
+				}
+				e := &verEntry{model: ee.Version}
+				for _, g := range sr.Got {
+					id := ""
+					if i < len(g.Entries) && g.Entries[i].Version != "null" {
+						id = g.Entries[i].Version
+					}
+					e.ids = append(e.ids, id)
+				}
+				k := bk(mc.Bucket, ee.Key)
+				s.versions[k] = append(s.versions[k], e)
+			}
+		}
 		if v := sr.Expect.Version; v != "" && v != "null" {
 			e := &verEntry{model: v}
-			for _, g := range sr.Got {
+			for i, g := range sr.Got {
 				id := g.Version
+				if id == "" && op.Kind == prog.OpAppend && g.Err == "" {
+					// AppendObject returns no version id: learn it from a HeadObject of the current version
+					h := s.Sides[i].Do(prog.Concrete{Op: prog.Op{Kind: prog.OpHead}, Bucket: mc.Bucket, Key: mc.Key})
+					if h.Obj != nil {
+						id = h.Obj.Version
+					}
+				}
 				if id == "null" {
 					id = ""
 				}
